@@ -51,7 +51,8 @@ def main():
             meta_in = json.load(open(os.path.join(src, m + ".json")))
         except Exception:
             pass
-        res = {"property": pid, "mutant": m, "summary": meta_in.get("summary"), "needs": meta_in.get("needs"), "agent_ran": meta_in.get("ran")}
+        rcb, base = sh("git -C /repo rev-parse --short HEAD")
+        res = {"property": pid, "mutant": m, "base_commit": base.strip(), "summary": meta_in.get("summary"), "needs": meta_in.get("needs"), "agent_ran": meta_in.get("ran")}
         wt = tempfile.mkdtemp(prefix="seedwt-")
         os.rmdir(wt)
         try:
